@@ -4,14 +4,17 @@
     InsertIndexEntryAt, the add-to-index flag of SetDataNode, the snapshot of GetDataCallback, CloneDataNodeSubtree, save + restore, as
     coded; every change appends (opcode, position, name) to the log of every path-subscribed session, the subscribers replay it) against
     IndexAbs: ReplayOK, OpsFit, EntriesAreChildren, NoDuplicates; every invariant is shown to be violable (deviations F26, pos1, prelen,
-    silentrm, staleentry; Reach_* witnesses).
+    silentrm, staleentry; Reach_* witnesses).  The model also has: inserts / sets refused by the server's per-node child limit, every
+    pair of owner commands sent as ONE PR_COMMAND_BATCH (incl. change + snapshot request), wildcard removal of all children, quiet
+    subscribes / removals, departure and return of the owner's session.
  2. spec -> code: the same TLC runs print EVERY transition (state, command, expected server index / children / index mirrors); they are
     turned into behaviours that take every transition and replayed by harness/refl.cpp on an in-process ReflectServer: after EVERY
     command each client's index mirror (replayed from the PR_RESULT_INDEXUPDATED opcodes it received) is compared with the expectation
     and with the server's index, and IndexAbs's server-side clauses (entries are children, none twice) are evaluated on the real nodes.
  3. code -> spec: seeded random histories (3-4 sessions, ordered inserts before named siblings / at the end, reorders incl. remove-from-
     index and wildcards, plain and add-to-index sets, removals, clones and restores between and onto indexed nodes, BATCH Messages,
-    subscribers joining and leaving at any point, filters, quiet flags, disconnects), same oracle after every command; a subset is logged
+    subscribers joining and leaving at any point, filters, quiet flags, disconnects; a third of the histories on a server with a
+    per-node child limit of 2..4; BATCHes that start or end with a GETDATA / subscribe / unsubscribe), same oracle after every command; a subset is logged
     with the opcodes every client received and validated by TLC against IndexAbs (spec/Reflector/IndexTrace.tla, linear).
 """
 import concurrent.futures as cf, os, re
@@ -165,5 +168,6 @@ def run(v, tier, seed):
     assumptions = ["C13 precondition (DESIGN.md): index updates go to every path-subscribed session regardless of filters, the snapshot is part of the FILTERED data result: a client tracks a node's index from the moment it is path-subscribed AND has the snapshot or the index was empty; untracked nodes are not judged",
                    "quiet removals change an index silently (documented): the node is untracked until the next snapshot",
                    "IndexImpl starts the generated-name counter of every new node at 0, as DataNode::Init does since the repair of F40; the harness touches no private state",
+                   "a snapshot (clear opcode) replaces the client's index, later opcodes are applied to it; quiet removals are not put into BATCHes (what follows them there cannot be replayed); a subscribe / request inside a BATCH is its first or its last part",
                    "single-threaded pumping of the server to quiescence after every command"]
     return "model_checking", cov, assumptions
